@@ -23,7 +23,7 @@ Seed == IF "VERIF_SEED" \in DOMAIN IOEnv THEN atoi(IOEnv.VERIF_SEED) ELSE 1
 
 -----------------------------------------------------------------------------
 (* response writer *)
-Alpha == IF GenOps = "full" THEN OpsFull ELSE OpsSmall
+Alpha == IF GenOps = "full" THEN OpsFull ELSE IF GenOps = "mid" THEN OpsMid ELSE OpsSmall
 SigOf(P, ops) == [wh2 |-> Wh2(ops), ck2 |-> Ck2(P, ops), lost |-> Lost(P, ops)]
 Rw(fam, P, ops) == [kind |-> "rw", fam |-> fam, pre |-> P, prebody |-> PreBodyOf(P), ops |-> ops, sig |-> SigOf(P, ops)]
 \* the enumeration as a sequence, decoded from its index (a SET of several hundred thousand records costs TLC hours):
